@@ -307,6 +307,8 @@ func (u *Universe) KindOfTerm(t Term) (kind int, lexeme string, plusTok bool) {
 		return KSLater, base + "-or-later", false
 	case SpLaterPlus:
 		return KSLater, base + "-or-later", true
+	case SpOnlyPlus:
+		return KSOnly, base + "-only", true
 	}
 	plusTok = t.Spell == SpPlus
 	switch {
